@@ -317,3 +317,57 @@ pub fn string_probe_pool() -> Vec<Value> {
     v.push(" \t\r\n a b \u{3000}\u{85}".to_string());
     v.into_iter().map(Value::String).collect()
 }
+
+/// Calendar instants (C01 / C02 `cells-calendar`): around every month boundary and the leap day of the years next to
+/// a century year and the present, the leap day and the turn of every year of 1583..=2417, the years around 0, and — over chrono's
+/// whole range, every 13th 400-year era — the years whose position in the era decides leap-ness (0, 1, 3, 4, 99, 100, 101,
+/// 399 mod 400).  A table-driven or approximating calendar computation is wrong exactly at some of these.
+pub fn calendar_pool(full: bool) -> Vec<Value> {
+    use chrono::NaiveDate;
+    let mut secs: Vec<i64> = vec![];
+    let mut push_day = |y: i32, m: u32, d: u32, rich: bool| {
+        if let Some(date) = NaiveDate::from_ymd_opt(y, m, d) {
+            let t0 = date.and_hms_opt(0, 0, 0).unwrap().and_utc().timestamp();
+            secs.push(t0);
+            secs.push(t0 + 86399);
+            if rich {
+                secs.push(t0 + 3599);
+                secs.push(t0 + 3600);
+                secs.push(t0 + 43200 + 59 * 60 + 59);
+            }
+        }
+    };
+    // every month boundary of the years around the century years and of the present; thorough: of every year 1..4000
+    let mut all_months: Vec<i32> = vec![1599, 1600, 1601, 1899, 1900, 1901, 1999, 2000, 2001, 2023, 2024, 2025, 2099, 2100, 2101, -1, 0, 1];
+    if full {
+        all_months.extend(1..=4000);
+    }
+    for y in all_months {
+        for m in 1..=12u32 {
+            push_day(y, m, 1, false);
+            for d in [28u32, 29, 30, 31] {
+                push_day(y, m, d, false);
+            }
+        }
+    }
+    // the leap day and the turn of the year of every year of 1583..=2417
+    for y in (1583..=2417).chain(-5..=5) {
+        for (m, d) in [(1u32, 1u32), (2, 28), (2, 29), (3, 1), (12, 31)] {
+            push_day(y, m, d, m == 2);
+        }
+    }
+    let step = if full { 1 } else { 13 };
+    let mut era = -656i32;
+    while era <= 655 {
+        for off in [0i32, 1, 3, 4, 99, 100, 101, 399] {
+            let y = era * 400 + off;
+            for (m, d) in [(1u32, 1u32), (2, 28), (2, 29), (3, 1), (12, 31)] {
+                push_day(y, m, d, false);
+            }
+        }
+        era += step;
+    }
+    secs.sort();
+    secs.dedup();
+    secs.into_iter().filter_map(|s| DateTime::from_timestamp(s, if s % 2 == 0 { 0 } else { 999_999_999 })).map(Value::DateTime).collect()
+}
